@@ -58,7 +58,9 @@ class Lin:
 
 def leaf_name(k):
     if k[0] == "len":
-        return "len(%s)" % leaf_name(k[1])
+        return "len(%s)" % (leaf_name(k[1]) if isinstance(k[1], tuple) else k[1])
+    if k[0] == "O":
+        return k[1][:40]
     if k[0] == "L":
         return k[2] or "_%d" % k[1]
     if k[0] == "C":
@@ -132,6 +134,11 @@ class Linearizer:
             if kind == "full":
                 return self.length(base)
             return None
+        if x[0] == "call":
+            # the length of a freshly built collection (e.g. `s.split('|').collect::<Vec<_>>()`): an atom of its own
+            o = self.opaque(x)
+            (k, _), = o.t.items()
+            return Lin(0, {("len", k): 1}, o.deps)
         if x[0] == "agg" and x[1][0] == "array":
             return Lin(len(x[2]))
         if x[0] == "repeat" and isinstance(x[2], int):
